@@ -149,6 +149,27 @@ CHECKS['C20'] = dict(
          'starts, all calls start within a bounded virtual delay.',
     note='Start instant = the last time_func value the decorator read for that call (the decision instant).')
 
+CHECKS['C13'] = dict(
+    level='exploration', ref='3/C13',
+    technique='runtime monitoring: unsharded RefCache as lock-step oracle for FanoutCache histories over five shard '
+              'counts; cross-interpreter routing monitor (different PYTHONHASHSEED), golden routing table recorded from '
+              'the pinned tree, equal-key pair monitor; known-finding classifier by mechanism',
+    text='~25k calls per quick run against FanoutCache(1,2,3,8,13) compared with the unsharded reference (aggregate '
+         'totals, iteration as permutation, volume, per-shard limit, check() after planted damage); ~1.4k keys written '
+         'under one hash seed and located under another; ~16k Disk.hash values compared with the pinned routing table; '
+         '320 equal-key pair cases (K2 reported as KNOWN-FINDING).',
+    note='Equal int/float alias keys are excluded from part (a) and exercised in part (b), so K2 cannot mask anything '
+         'else. golden/ was written by the pinned commit (tools/mkgolden.py).')
+CHECKS['C14'] = dict(
+    level='fault_enumeration', ref='3/C14',
+    technique='runtime monitoring + fault injection: a second SQLite connection holds BEGIN IMMEDIATE before the call, '
+              'from the call\'s own pre:BEGIN gate, from the second page of a bulk removal, or until the k-th failed '
+              'attempt; differential oracle against a fault-free twin; table/file snapshot equality',
+    text='The whole case table (353 cases: every public data operation of Cache, FanoutCache, DjangoCache, Deque and '
+         'Index x faults x retry x connection timeout) is executed on every run (exhaustive over the table).',
+    note='stats()/reset() are not data operations and are not driven. A call that returns while the holder still owns '
+         'the lock is a violation.')
+
 NOT_YET = {}
 
 
